@@ -272,6 +272,9 @@ def r10_3(ctx, m):
                     decider, ret_pos = h, [norm(t) for t in st.targets[0].elts].index(iv)
                     out_param, ind_param = amap[out_param], amap[ind_param]
                     ctx.analysed_func(h)
+    from ..core import desugar_ifexp
+
+    decider = desugar_ifexp(decider)
     paths = enum_paths(decider.node.body, rule="R10.3", where=decider.where())
     bad = None
     n_dec = 0
